@@ -1,5 +1,6 @@
 import SSVerif.Model.Align
 import SSVerif.Model.AlignJson
+import SSVerif.Model.AlignWrap
 import Driver.Util
 /-! driver sub-command `c04`: reads the dumps written by `harness/h_c04` (MODEL block, then one REQ block per
 alignment request) and, per request,
@@ -79,6 +80,11 @@ structure WTab where
 /-- one request block -/
 structure Req where
   head : String := ""
+  /-- the request line: case id, tag, `acmod->output_frame`, `acmod->n_feat_alloc` -/
+  caseId : String := ""
+  tag : String := ""
+  outFrame : Nat := 0
+  nAlloc : Nat := 0
   fp : Array (Int × Int × Int) := #[]          -- wid sf ef  (all segments)
   tabs : Array WTab := #[]
   aOk : Bool := false
@@ -104,6 +110,12 @@ structure Req where
   rsen : Array (Array Int) := #[]
   rfinal : Option Tok := none
   rrows : Array (List Tok) := #[]
+  /-- dead-final-state probe: number of frames of the truncated pass, its exit (history, score), token stack and the
+  return value of `state_align_search_finish` on it -/
+  dcut : Nat := 0
+  dfinal : Option Tok := none
+  drows : Array (List Tok) := #[]
+  dfin : Option Int := none
   /-- `decoder_result_json` calls: level, position of the utterance + frame rate, returned bytes (`none` = NULL) -/
   js : Array (Nat × Clock × Option (List UInt8)) := #[]
   /-- names through `alignment_iter_name`, level by level -/
@@ -229,6 +241,16 @@ def Req.feed (r : Req) (ws : List String) : Req :=
     match cells.mapM parseCell with
     | some cs => { r with rrows := r.rrows.push (denseRow r.nstates cs) }
     | none => err "RTOK"
+  | ["DCUT", v] => match parseNat v with | some v => { r with dcut := v } | none => err "DCUT"
+  | ["DFINAL", id, sc, _nf] =>
+    match parseInt id, parseInt sc with
+    | some id, some sc => { r with dfinal := some ⟨id, sc⟩ }
+    | _, _ => err "DFINAL"
+  | "DTOK" :: _f :: cells =>
+    match cells.mapM parseCell with
+    | some cs => { r with drows := r.drows.push (denseRow r.nstates cs) }
+    | none => err "DTOK"
+  | ["DFIN", _c, rv] => match parseInt rv with | some v => { r with dfin := some v } | none => err "DFIN"
   | ["MFINAL", id, sc, _nf] =>
     match parseInt id, parseInt sc with
     | some id, some sc => { r with mfinal := some ⟨id, sc⟩ }
@@ -284,9 +306,64 @@ def buildTree (r : Req) : Option (List WNode) :=
       pure ({ e := pe, states := ss } : PNode)
     pure ({ e := we, phones := pns } : WNode)
 
-def process (m : Mdl) (r : Req) (out : IO.FS.Stream) : IO Unit := do
+/-- state of the wrapper model carried from request to request of a harness case -/
+structure WSt where
+  dec : SSVerif.Align.Wrap.Dec := {}
+  caseId : String := ""
+  utt : Nat := 0
+
+/-- utterance number of a request tag (`u<k>…` = utterance k, everything else utterance 0) -/
+def uttOf (tag : String) : Nat :=
+  match tag.toList with
+  | 'u' :: rest => (parseNat (String.ofList (rest.takeWhile Char.isDigit))).getD 0
+  | _ => 0
+
+open SSVerif.Align.Wrap in
+/-- the wrapper model (`Wrap.request`) on this request: the events between the previous request and this one are read
+off the tag (new case: fresh decoder state; new utterance: `decoder_start_utt`; `…final`: `decoder_end_utt`), the
+acoustic model's frame counters off the request line; the harness calls `decoder_alignment` twice, then once per
+`decoder_result_json` call with a level > 0.  The second pass is the model's `populate`/`finish` on the token stack
+dumped in this block. -/
+def wrapStep (_m : Mdl) (r : Req) (D : Dict) (w : WSt) (out : IO.FS.Stream) : IO WSt := do
+  let d0 : Dec := if r.caseId != w.caseId then {} else w.dec
+  let u := uttOf r.tag
+  let d1 := if r.caseId == w.caseId && u != w.utt then startUtt d0 else d0
+  let d2 := if r.tag.endsWith "final" then endUtt d1 else d1
+  let d3 := advance d2 r.outFrame r.nAlloc
+  let segsL : List FSeg := r.fp.toList.map fun (wid, sf, ef) => { wid, sf, ef }
+  let segs : Option (List FSeg) := if segsL.isEmpty then none else some segsL
+  let pass2 : List Entry → Nat → Option Alignment := fun ws T =>
+    if r.haveTok && T == r.nframe then finish r.rows.toList T r.final (populate D ws) else none
+  let (r1, e1) := request pass2 d3 segs
+  let (r2, e2) := request pass2 e1 segs
+  let njs := (r.js.toList.filter fun (lvl, _, _) => lvl > 0).length
+  let e3 := (List.range njs).foldl (fun e _ => (request pass2 e segs).2) e2
+  let kind : Res → String
+    | .null => "null"
+    | .assertFail => "assert"
+    | .al _ true _ => "reuse"
+    | .al _ false _ => "new"
+  let ser : Res → Int
+    | .al s _ _ => s
+    | _ => -1
+  let wordsS : String := match r1 with
+    | .al _ _ (some a) => ";".intercalate (a.words.map fun e => s!"{e.id}:{e.start}:{e.duration}")
+    | .al _ _ none => "halfbuilt"
+    | _ => "-"
+  let wordsOut : String := if wordsS.isEmpty then "-" else wordsS
+  let T : Int := match e1.align with | some al => al.frame | none => -1
+  let pe := scan (-1) segsL
+  let b (x : Bool) : String := if x then "1" else "0"
+  let pos := (keep segsL).all fun s => s.sf ≤ s.ef
+  let cov := match pe with | some p => decide (p + 1 ≤ (r.outFrame : Int)) | none => true
+  let pron := (keep segsL).all fun s => !(D.pron s.wid).isEmpty
+  out.putStrLn s!"WRAP c1={kind r1} c2={kind r2} same12={b (ser r1 == ser r2 && ser r1 ≥ 0)} T={T} of={e1.outFrame} pos={b pos} cov={b cov} pron={b pron} nkeep={(keep segsL).length} nseg={segsL.length} serial={e3.serial} words={wordsOut}"
+  pure ({ dec := e3, caseId := r.caseId, utt := u } : WSt)
+
+def process (m : Mdl) (r : Req) (out : IO.FS.Stream) (w : WSt) : IO WSt := do
   out.putStrLn r.head
   let D := mkDict m r
+  let w' ← if r.tag == "synth" then pure w else wrapStep m r D w out
   let fpw := r.fp.toList.filter (fun s => s.1 ≥ 0)
   let words := fpw.map fun (w, sf, ef) => mkWord w sf (ef - sf + 1)
   let a0 := populate D words
@@ -340,6 +417,14 @@ def process (m : Mdl) (r : Req) (out : IO.FS.Stream) : IO Unit := do
         | none => false
       let b (x : Bool) : String := if x then "1" else "0"
       out.putStrLn s!"OK tree=1 alignOK={b ok} words={b c1} phones={b c2} states={b c3} ctx={b cx} partition={b c4} contiguous={b c5} scores={b c6} flat={b flat} iter={b (iterW && iterP)} T={T}"
+  -- hypotheses of C04_model_tree_alignOK on this request: the driver's senOK accepts the senones of the populated phones
+  -- (`hsen`), and the model's expectation `modelExpSen` is the harness' independent `expSen` (lines X)
+  if r.cW.size > 0 then
+    let senOK : Int → Nat → Int → Bool := fun ci j s =>
+      s ≥ 0 && getI m.sen2ci s == ci && ((m.senPos.getD s.toNat 0) >>> j) % 2 == 1
+    let hsen := a0.phones.all fun e => (List.range D.nEmit).all fun j => senOK e.id j (D.sen e.ssid j)
+    let mexp := (a0.phones.map fun e => (List.range D.nEmit).map (D.sen e.ssid)) == r.expSen.toList
+    out.putStrLn s!"TREE hsen={if hsen then 1 else 0} mexp={if mexp then 1 else 0}"
   if r.haveTok then
     let ne := m.nEmit
     let sfA := r.sf.toArray
@@ -386,6 +471,29 @@ def process (m : Mdl) (r : Req) (out : IO.FS.Stream) : IO Unit := do
     let firstDiff := ((List.range rows.length).find? fun f => rows[f]? != r.rrows.toList[f]?).getD rows.length
     let b (x : Bool) : String := if x then "1" else "0"
     out.putStrLn s!"RSTEP eq={b same} frames={rows.length} firstdiff={firstDiff} renorm={b renorm} off={r.roff} final={fin.score} alive={b (fin.score > SSVerif.Align.Step.worst)}"
+  -- dead-final-state probe: the step model over the first `dcut` frames of the dumped senone scores, then `finish`
+  match r.dfinal, r.dfin with
+  | some df, some rv =>
+    if m.nEmit != 3 then out.putStrLn "DSTEP na=1" else
+    let tpTab := if r.tpx.isEmpty then m.tp else r.tpx
+    let tps : Array (Array Int) := r.cP.map fun e => if e.tmatid < 0 then #[] else tpTab.getD e.tmatid.toNat #[]
+    let frames := r.sen.toList.take r.dcut
+    let (rows, fin, renorm) := SSVerif.Align.Step.run tps r.sf.toArray r.ef.toArray frames
+    let same := rows == r.drows.toList && fin == df && frames.length == r.dcut
+    let alive := fin.score > SSVerif.Align.Step.worst
+    let fpw := r.fp.toList.filter (fun s => s.1 ≥ 0)
+    let a0 := populate D (fpw.map fun (w, sf, ef) => mkWord w sf (ef - sf + 1))
+    let mfin := (finish rows r.dcut fin a0).isSome
+    -- hypotheses of C04_dead_final_no_alignment on the dumped arrays
+    let sfA := r.sf.toArray
+    let efA := r.ef.toArray
+    let mono := (List.range (efA.size - 1)).all fun i => efA.getD i 0 ≤ efA.getD (i + 1) 0
+    let hyp := mono && decide (sfA.getD 0 0 ≤ 0) && decide ((r.dcut : Int) ≤ efA.getD (sfA.size - 1) 0)
+        && decide ((r.dcut : Int) * 33022 ≤ 533000000)
+        && frames.all (fun row => row.all fun v => 0 ≤ v && v ≤ 32767) && tps.all (fun tp => tp.all fun v => 0 ≤ v && v ≤ 255)
+    let b (x : Bool) : String := if x then "1" else "0"
+    out.putStrLn s!"DSTEP eq={b same} frames={r.dcut} alive={b alive} outh={fin.id} finish={b mfin} cfinish={b (rv ≥ 0)} hyp={b hyp} renorm={b renorm}"
+  | _, _ => pure ()
   -- the hierarchy as reported by decoder_result_json(d, start, level)
   for (k, (lvl, c, payload)) in enum r.js.toList do
     let b (x : Bool) : String := if x then "1" else "0"
@@ -412,31 +520,34 @@ def process (m : Mdl) (r : Req) (out : IO.FS.Stream) : IO Unit := do
           out.putStrLn s!"JS {k} level={lvl} null=0 parse=1 clock={b (JsonObs.clockOK c)} tree=1 top={o.top} same={b same} names={b names} timeOK={b tok} nW={flatW.length} nP={flatP.length} nS={flatS.length}"
   if !r.bad.isEmpty then out.putStrLn ("BAD " ++ " ".intercalate r.bad)
   out.putStrLn "ENDREQ"
+  pure w'
 
-partial def loop (h out : IO.FS.Stream) (m : Mdl) (inModel : Bool) (cur : Option Req) : IO Unit := do
+partial def loop (h out : IO.FS.Stream) (m : Mdl) (inModel : Bool) (cur : Option Req) (w : WSt) : IO Unit := do
   let line ← h.getLine
   if line.isEmpty then return ()
   let ws := words line
   match ws with
-  | "MODEL" :: _ => loop h out (({} : Mdl).feed ws) true none
+  | "MODEL" :: _ => loop h out (({} : Mdl).feed ws) true none w
   | ["ENDMODEL"] =>
     if !m.bad.isEmpty then out.putStrLn ("BADMODEL " ++ " ".intercalate m.bad)
-    loop h out m false none
-  | "REQ" :: _ => loop h out m false (some { head := " ".intercalate (ws.take 3) })
+    loop h out m false none w
+  | "REQ" :: _ =>
+    loop h out m false (some { head := " ".intercalate (ws.take 3), caseId := ws.getD 1 "", tag := ws.getD 2 "",
+                               outFrame := (parseNat (ws.getD 3 "")).getD 0, nAlloc := (parseNat (ws.getD 4 "")).getD 0 }) w
   | ["ENDREQ"] =>
     match cur with
-    | some r => process m r out; out.flush; loop h out m false none
-    | none => loop h out m false none
+    | some r => let w' ← process m r out w; out.flush; loop h out m false none w'
+    | none => loop h out m false none w
   | _ =>
-    if inModel then loop h out (m.feed ws) true none
+    if inModel then loop h out (m.feed ws) true none w
     else match cur with
-      | some r => loop h out m false (some (r.feed ws))
-      | none => loop h out m false none
+      | some r => loop h out m false (some (r.feed ws)) w
+      | none => loop h out m false none w
 
 def main : IO Unit := do
   let stdin ← IO.getStdin
   let stdout ← IO.getStdout
-  loop stdin stdout {} false none
+  loop stdin stdout {} false none {}
   stdout.flush
 
 end Driver.C04
